@@ -19,9 +19,9 @@ Proof.
   destruct a as [[|b] g i|b q i].
   - reflexivity.
   - unfold finished. rewrite <- ist_dimg_of_image, H. reflexivity.
-  - destruct H as (H1 & H2 & H3 & H4). unfold finished, succeeded.
+  - destruct H as (H1 & H2 & H3 & H4). unfold finished, has_result.
     rewrite <- !ist_dimg_of_image, H1, H2. simpl.
-    unfold ist. rewrite H3. simpl. rewrite <- cn_dimg_of_image, <- cok_dimg_of_image, H4. reflexivity.
+    unfold ist. rewrite H3. simpl. rewrite <- cn_dimg_of_image, H4. reflexivity.
 Qed.
 
 (* C09 for one recovery: whatever the resumed automaton accepts from the crash image never starts durably
